@@ -57,17 +57,86 @@ def rule_op_pair(ctx: RuleContext, p: Program, rid: str) -> None:
         ok = len(calls) == 1 and [norm(a) for a in calls[0].args] == ['self', repr(sign)]
         ctx.check(ok, rid, f'models.number_expr:NumberExpr.{nm}', norm(calls[0]) if calls else '',
                   f'{nm} does not build _unary(self, {sign!r})', f.where, note=norm(calls[0]) if calls else '')
-    # the decorator forwards (self, other) in order and converts int / Decimal operands
+    # the decorator: interpreted for every kind of right operand
     d = p.func('models.number_expr', '_operand_type_check')
-    inner = [n for n in ast.walk(d.node) if isinstance(n, ast.FunctionDef) and n is not d.node]
-    ok = False
-    if len(inner) == 1:
-        w = inner[0]
-        a = [x.arg for x in w.args.args]
-        calls = [c for c in ast.walk(w) if isinstance(c, ast.Call) and norm(c.func) == d.params[0]]
-        ok = len(calls) == 1 and [norm(x) for x in calls[0].args] == a
-    ctx.check(ok, rid, 'models.number_expr:_operand_type_check', 'op(self, other)', 'the operand-check wrapper does not forward '
-              '(self, other) in order', d.where, note='forwards op(self, other)')
+    problem = _operand_check_sem(p, d)
+    ctx.check(not problem, rid, 'models.number_expr:_operand_type_check', 'op(self, <other as NumberExpr>)',
+              f'the operand-check wrapper, interpreted for int / Decimal / NumberExpr / foreign operands: {problem}', d.where,
+              note='int and Decimal become NumberExpr.from_value(Decimal), expressions pass through, anything else gives NotImplemented')
+
+
+def _operand_check_sem(p: Program, d: Any) -> str:
+    import decimal
+    from . import possem
+    from .tokenstore import TS
+    ts = TS(p)
+    m = p.module('models.number_expr')
+    inner = [f for f in p.functions_in(m) if f.parent is d]
+    if len(inner) != 1:
+        return 'the wrapper no longer defines exactly one inner function'
+    w = inner[0]
+
+    class Interp(possem.PosInterp):
+        tag = 'OP-PAIR'
+
+        def __init__(self) -> None:
+            super().__init__(ts, [], module=m)
+            self.calls: list = []
+
+        def expr(self, e: Any, env: dict) -> Any:                 # type: ignore[override]
+            if isinstance(e, ast.Call):
+                fname = norm(e.func)
+                if isinstance(e.func, ast.Name) and e.func.id in env and env[e.func.id] == 'OP':
+                    args = [self.expr(a, env) for a in e.args]
+                    self.calls.append(args)
+                    return possem.Obj('NumberExpr', {'result': True}, 'result')
+                if fname == 'isinstance' and len(e.args) == 2:
+                    v = self.expr(e.args[0], env)
+                    t = norm(e.args[1])
+                    if t == 'int':
+                        return isinstance(v, int) and not isinstance(v, bool)
+                    if t in ('decimal.Decimal', 'Decimal'):
+                        return isinstance(v, decimal.Decimal)
+                    if t == 'NumberExpr':
+                        return isinstance(v, possem.Obj) and v.cls == 'NumberExpr'
+                    if t in ('(int, decimal.Decimal)', 'int | decimal.Decimal', '(decimal.Decimal, int)', 'decimal.Decimal | int'):
+                        return (isinstance(v, int) and not isinstance(v, bool)) or isinstance(v, decimal.Decimal)
+                    raise self.err(e, 'isinstance against a class this rule does not model')
+                if fname in ('decimal.Decimal', 'Decimal') and len(e.args) == 1:
+                    v = self.expr(e.args[0], env)
+                    if isinstance(v, (int, decimal.Decimal)):
+                        return decimal.Decimal(v)
+                if fname == 'NumberExpr.from_value' and len(e.args) == 1:
+                    v = self.expr(e.args[0], env)
+                    return possem.Obj('NumberExpr', {'from_value': v}, f'NumberExpr.from_value({v!r})')
+            return super().expr(e, env)
+
+    me = possem.Obj('NumberExpr', {}, 'self')
+    expr_operand = possem.Obj('NumberExpr', {}, 'other expression')
+    for other, kind in ((5, 'int'), (decimal.Decimal('2.50'), 'Decimal'), (expr_operand, 'NumberExpr'), ('text', 'str'), (None, 'None')):
+        it = Interp()
+        try:
+            res = it.call_function(w, [me, other], {d.params[0]: 'OP'})
+        except possem.Raised as ex:
+            return f'a right operand of kind {kind}: raises {ex}'
+        if kind in ('str', 'None'):
+            if it.calls or res != 'NotImplemented':
+                return f'a right operand of kind {kind} is not answered with NotImplemented (calls {len(it.calls)}, result {res!r})'
+            continue
+        if len(it.calls) != 1 or len(it.calls[0]) != 2 or it.calls[0][0] is not me:
+            return f'a right operand of kind {kind}: the operator is not called exactly once as op(self, other)'
+        arg = it.calls[0][1]
+        if kind == 'NumberExpr':
+            if arg is not other:
+                return 'an expression operand is not passed through as it is'
+        else:
+            want = decimal.Decimal(other)
+            if not (isinstance(arg, possem.Obj) and arg.cls == 'NumberExpr' and isinstance(arg.f.get('from_value'), decimal.Decimal)
+                    and arg.f['from_value'] == want):
+                return f'a right operand {other!r} ({kind}) reaches the operator as {arg!r}, not as NumberExpr.from_value(Decimal({other!r}))'
+        if not (isinstance(res, possem.Obj) and res.f.get('result')):
+            return f'a right operand of kind {kind}: the wrapper does not return what the operator returns'
+    return ''
 
 
 def rule_op_level(ctx: RuleContext, p: Program, rid: str) -> None:
